@@ -46,7 +46,7 @@ func TestCheck(t *testing.T) {
 			"rotation is always followed by waiting for the flush, so a step's effect does not depend on flush timing",
 		},
 	}
-	pbt.Add(s, &pbt.Spec[perco.GCase]{Name: "locks", Gen: gen, Run: run, Quick: 900, Thorough: 36000, Shards: 16})
-	pbt.Add(s, &pbt.Spec[perco.PCase]{Name: "parked", Gen: genPair, Run: runPair, Quick: 600, Thorough: 12000, Shards: 16})
+	pbt.Add(s, &pbt.Spec[perco.GCase]{Name: "locks", Gen: gen, Run: run, Quick: 800, Thorough: 36000, Shards: 16})
+	pbt.Add(s, &pbt.Spec[perco.PCase]{Name: "parked", Gen: genPair, Run: runPair, Quick: 480, Thorough: 12000, Shards: 16})
 	s.Main(t)
 }
